@@ -126,6 +126,13 @@ func checkC01(c *core.Ctx, pc pcase) {
 							fmt.Sprintf("after %d bytes of a second parsed value were changed through its exported fields and what its accessors hand out: %s", n, describeDiff(consumed, after)))
 						return
 					}
+					// ... and so does a fresh parse of the same input: what the holder of one value writes
+					// into it is not what later parses are built from
+					if out3, p3, _, _ := callParser(c, pc.p, pc.in); !p3 && (!out3.Accepted || !bytes.Equal(out3.Ser, consumed) || len(out3.Rem) != len(out.Rem)) {
+						c.Violate(pc.p.Name, "parse-differs-after-another-value-was-edited", sh, pc.in,
+							fmt.Sprintf("the same input parsed again after %d bytes of another parsed value were changed through its public surface: accepted=%v, %s", n, out3.Accepted, describeDiff(consumed, out3.Ser)))
+						return
+					}
 					c.Bucket("independent-of-edits-to-another-value/" + pc.p.Kind)
 				}
 			}
